@@ -399,7 +399,11 @@ func TestC17(t *testing.T) {
 				})
 				w.noConverge = true
 			case x < 94:
-				step(w.col+":reset", func() error {
+				// every second reset is followed, in the same step, by new data in the collection and another
+				// reset: whatever the first reset left behind in the server (not in the store) must not make
+				// the second one miss its target
+				again := rapid.Bool().Draw(rt, "reset_again")
+				resetOnce := func() error {
 					if sharedBoth {
 						foreignAfter = true
 					}
@@ -459,6 +463,29 @@ func TestC17(t *testing.T) {
 					w.clients = nil
 					for _, k := range w.keys {
 						k.created, k.duid = false, ""
+					}
+					return nil
+				}
+				step(fmt.Sprintf("%s:reset(again=%v)", w.col, again), func() error {
+					if err := resetOnce(); err != nil {
+						return err
+					}
+					if !again {
+						return nil
+					}
+					cl, err := w.addClient()
+					if err != nil {
+						return fmt.Errorf("after the reset a new client cannot register: %v", err)
+					}
+					k := w.keys[0]
+					d := w.open(cl, k, "create")
+					sim.Exec(k.Kind, d.dt, c06CheapCall(k.Kind, 1))
+					if ex := w.syncClient(cl); ex == nil || exchangeProblem(cl, ex) != nil {
+						return fmt.Errorf("after the reset a new client cannot create %s again: %v", k.Name, exchangeProblem(cl, ex))
+					}
+					cw.env.WaitBackground(3 * time.Second)
+					if err := resetOnce(); err != nil {
+						return fmt.Errorf("second reset of %s (after new data): %v", w.col, err)
 					}
 					return nil
 				})
